@@ -1,1 +1,913 @@
-fn main() {}
+//! C05 — foreign-field and big-integer gadgets are complete and sound.
+
+mod bops;
+mod common;
+mod dec;
+mod fops;
+
+use std::{collections::HashMap, sync::Mutex};
+
+use bops::BOp;
+use common::*;
+use dec::*;
+use fops::{Cons, FOp, Fld, Step};
+use midnight_circuits::{
+    biguint::AssignedBigUint,
+    field::foreign::{params::MultiEmulationParams as MEP, AssignedField},
+    types::Instantiable,
+    CircuitField,
+};
+use midnight_proofs::{circuit::Layouter, plonk::Error, verif::{Fault, Mode}};
+use midnight_zk_stdlib::{ZkStdLib, ZkStdLibArch};
+use num_bigint::BigUint;
+use num_traits::{One, Zero};
+use serde_json::json;
+use vcore::{CaseOut, Ctx, Level, Tier, Viol};
+use vgad::{Exposer, Judgement, OpCase, Outcome, F};
+
+// ---------------------------------------------------------------------------------------------
+// the case type
+// ---------------------------------------------------------------------------------------------
+
+#[derive(Clone, Debug)]
+pub enum Kind {
+    F(Fld, FOp),
+    B(BOp),
+}
+
+#[derive(Clone, Debug)]
+pub struct Case {
+    pub kind: Kind,
+    pub ins: Vec<V>,
+    pub cols: u8,
+    pub mbl: u8,
+}
+
+impl Case {
+    fn kkey(&self) -> String {
+        format!("{:?}/{}/{}", self.kind, self.cols, self.mbl)
+    }
+    fn opkey(&self) -> String {
+        format!("{:?}", self.kind)
+    }
+}
+
+impl OpCase for Case {
+    fn key(&self) -> String {
+        let ins = self.ins.iter().map(|v| v.show()).collect::<Vec<_>>().join(",");
+        match &self.kind {
+            Kind::F(f, op) => format!("{}:{:?}[{}]c{}b{}", f.short(), op, ins, self.cols, self.mbl),
+            Kind::B(op) => format!("big:{:?}[{}]c{}b{}", op, ins, self.cols, self.mbl),
+        }
+    }
+    fn op(&self) -> String {
+        match &self.kind {
+            Kind::F(f, op) => format!("{}.{}", f.short(), op.name()),
+            Kind::B(op) => op.name(),
+        }
+    }
+    fn arch(&self) -> ZkStdLibArch {
+        let mut a = ZkStdLibArch {
+            nr_pow2range_cols: self.cols,
+            ..ZkStdLibArch::default()
+        };
+        match &self.kind {
+            Kind::F(Fld::SecpBase | Fld::SecpScalar, _) => a.secp256k1 = true,
+            Kind::F(Fld::BlsBase, _) => a.bls12_381 = true,
+            Kind::B(_) => {}
+        }
+        a
+    }
+    fn max_bit_len(&self) -> u8 {
+        self.mbl
+    }
+    fn synth<L: Layouter<F>>(&self, std: &ZkStdLib, l: &mut L, ex: &Exposer) -> Result<(), Error> {
+        match &self.kind {
+            Kind::F(Fld::SecpBase, op) => fops::synth_field(std.secp256k1_curve().base_field_chip(), std, l, ex, op, &self.ins),
+            Kind::F(Fld::SecpScalar, op) => fops::synth_field(std.secp256k1_scalar(), std, l, ex, op, &self.ins),
+            Kind::F(Fld::BlsBase, op) => fops::synth_field(std.bls12_381_curve().base_field_chip(), std, l, ex, op, &self.ins),
+            Kind::B(op) => bops::synth_big(std, l, ex, op, &self.ins),
+        }
+    }
+    fn expect_sat(&self) -> bool {
+        match &self.kind {
+            Kind::F(f, op) => fops::reference(&f.spec(), op, &self.ins).is_some(),
+            Kind::B(op) => bops::reference(op, &self.ins).is_some(),
+        }
+    }
+    fn judge(&self, ins: &[Vec<F>], outs: &[Vec<F>]) -> Judgement {
+        match &self.kind {
+            Kind::F(f, op) => fops::judge_field(&f.spec(), op, ins, outs),
+            Kind::B(op) => bops::judge_big(op, ins, outs),
+        }
+    }
+}
+
+// ---------------------------------------------------------------------------------------------
+// alphabets
+// ---------------------------------------------------------------------------------------------
+
+fn bu(x: u64) -> BigUint {
+    BigUint::from(x)
+}
+
+fn pow2(k: u32) -> BigUint {
+    BigUint::one() << k
+}
+
+/// Operand alphabet of an emulated field (values are residues; the limbs encode value - 1).
+fn field_alphabet(spec: &FieldSpec, seed: u64, n_seeded: usize) -> Vec<(String, BigUint)> {
+    let m = &spec.m;
+    let l = spec.log2_base;
+    let n = spec.nb_limbs;
+    let mut out: Vec<(String, BigUint)> = vec![];
+    let mut push = |name: &str, v: BigUint| {
+        let v = v % m;
+        if !out.iter().any(|(_, x)| *x == v) {
+            out.push((name.to_string(), v));
+        }
+    };
+    push("0", bu(0));
+    push("1", bu(1));
+    push("2", bu(2));
+    push("m-1", m - 1u32);
+    push("m-2", m - 2u32);
+    push("(m-1)/2", (m - 1u32) >> 1);
+    // every limb all-ones, reduced mod m
+    push("allones", pow2(l * n) - 1u32);
+    // limbs of (v-1): lower n-1 limbs all-ones
+    push("2^(L(n-1))", pow2(l * (n - 1)));
+    push("2^L-1", pow2(l) - 1u32);
+    push("2^L", pow2(l));
+    push("2^L+1", pow2(l) + 1u32);
+    // the largest value whose limb vector has a second well-formed representation (+m)
+    push("2^wf-m", pow2(spec.wf_total_bits()) - m);
+    let mut rng = vcore::rng_for(seed, &format!("c05-{}", spec.name));
+    for i in 0..n_seeded {
+        push(&format!("seeded{i}"), vcore::big::random_below(&mut rng, m));
+    }
+    out
+}
+
+fn big_values(w: u32, seed: u64) -> Vec<BigUint> {
+    let mut out: Vec<BigUint> = vec![];
+    let mut push = |v: BigUint| {
+        if v.bits() <= w as u64 && !out.contains(&v) {
+            out.push(v);
+        }
+    };
+    push(bu(0));
+    push(bu(1));
+    push(pow2(w) - 1u32);
+    push(pow2(w - 1));
+    for b in [96u32, 192] {
+        push(pow2(b) - 1u32);
+        push(pow2(b));
+        push(pow2(b) + 1u32);
+    }
+    let mut rng = vcore::rng_for(seed, &format!("c05-big-{w}"));
+    push(vcore::big::random_below(&mut rng, &pow2(w)));
+    out
+}
+
+// ---------------------------------------------------------------------------------------------
+// operation lists
+// ---------------------------------------------------------------------------------------------
+
+/// How thoroughly a field is covered.
+#[derive(Clone, Copy, PartialEq)]
+enum Depth {
+    Full,
+    Reduced,
+}
+
+fn field_ops(spec: &FieldSpec, depth: Depth, tier: Tier, seed: u64) -> Vec<FOp> {
+    use FOp::*;
+    let m = &spec.m;
+    let mut rng = vcore::rng_for(seed, &format!("c05-consts-{}", spec.name));
+    let c1 = vcore::big::random_below(&mut rng, m);
+    let c2 = vcore::big::random_below(&mut rng, m);
+    let nbits = m.bits() as usize;
+    let nbytes = nbits.div_ceil(8);
+    // mul_by_constant multiplies limb-wise when k <= max_limb_bound / (1000 * base) = base / 1000
+    let thr = spec.base() / 1000u32;
+    let mut v = vec![
+        Assign, Add, Sub, Neg, Mul(None), Div, Inv, Inv0, IsZero, IsEqual, AssertEqual, AssertNotEqual, Select,
+        MulConst(thr.clone()), MulConst(&thr + 1u32), MulConst(m - 1u32), AddConst(c1.clone()),
+        LinComb(vec![c1.clone(), bu(3)], c2.clone()),
+        ToLeBits(None, true), ToLeBits(None, false), ToLeBytes(None), FromLeBits(nbits), FromLeBytes(nbytes),
+        IsEqualToFixed(bu(0)), AssertEqualToFixed(c1.clone()), AssertNotEqualToFixed(c1.clone()),
+    ];
+    if depth == Depth::Full {
+        v.extend([
+            AssignFixed(bu(0)), AssignFixed(bu(1)), AssignFixed(m - 1u32), AssignFixed(c1.clone()),
+            Mul(Some(c1.clone())), Mul(Some(bu(0))), Mul(Some(bu(2))),
+            MulFixedLhs(bu(0), Some(bu(5))), MulFixedLhs(bu(1), None), MulFixedLhs(bu(1), Some(bu(5))), MulFixedLhs(bu(2), Some(bu(5))),
+            Square, Pow(0), Pow(1), Pow(2), Pow(5),
+            AddConst(bu(0)), AddConst(bu(1)), AddConst(m - 1u32),
+            MulConst(bu(0)), MulConst(bu(1)), MulConst(bu(2)), MulConst(c2.clone()),
+            LinComb(vec![bu(1)], bu(0)), LinComb(vec![bu(0), bu(1), m - 1u32], bu(1)), LinComb(vec![c1.clone(), c2.clone(), thr.clone(), bu(2)], c1.clone()),
+            AddAndMul(c1.clone(), bu(1), bu(0), c2.clone(), bu(2)),
+            AssertZero, AssertNonZero, IsNotEqual,
+            IsEqualToFixed(c1.clone()), IsEqualToFixed(m - 1u32), IsNotEqualToFixed(c1.clone()), IsNotEqualToFixed(bu(0)),
+            AssertEqualToFixed(bu(0)), AssertNotEqualToFixed(bu(0)),
+            CondAssertEqual, CondSwap,
+            ToLeBits(Some(1), true), ToLeBits(Some(8), true), ToLeBits(Some(spec.log2_base as usize), true), ToLeBits(Some(spec.log2_base as usize + 1), true),
+            ToLeBits(Some(8), false), ToLeBits(Some(spec.log2_base as usize + 1), false), ToBeBits(None, true),
+            ToLeBytes(Some(1)), ToLeBytes(Some(spec.log2_base as usize / 8 + 1)), ToBeBytes(None),
+            ToLeChunks(8, None), ToLeChunks(spec.log2_base as usize, None), ToLeChunks(8, Some(2)), ToLeChunks(5, None), ToLeChunks(spec.log2_base as usize / 2, Some(3)),
+            Sgn0,
+            FromLeBits(1), FromLeBits(spec.log2_base as usize + 1), FromLeBits(nbits + 8), FromBeBits(9),
+            FromLeBytes(1), FromLeBytes(spec.log2_base as usize / 8 + 1), FromLeBytes(nbytes + 1), FromBeBytes(3),
+            BitToField, ByteToField, IsSquare, AssertQr,
+        ]);
+    }
+    // chains that leave the accumulator un-normalised before the consumer
+    let chains: Vec<Vec<Step>> = {
+        let mut c = vec![
+            vec![Step::AddY],
+            vec![Step::SubY],
+            vec![Step::Neg, Step::SubY],
+            // just below the lazy-normalisation threshold (max_limb_bound / 10) ...
+            vec![Step::MulC(thr.clone()), Step::MulC(bu(64))],
+            // ... and just above it (normalisation is triggered inside the chain)
+            vec![Step::MulC(thr.clone()), Step::MulC(bu(128))],
+        ];
+        if depth == Depth::Full {
+            c.extend([
+                vec![Step::AddY, Step::AddY, Step::AddY, Step::AddSelf],
+                vec![Step::MulC(bu(3)), Step::SubY, Step::AddC(c1.clone())],
+                vec![Step::Neg, Step::MulC(thr.clone()), Step::MulC(bu(64)), Step::SubY],
+                vec![Step::SubY, Step::MulC(thr.clone()), Step::MulC(bu(100)), Step::AddY],
+            ]);
+        }
+        c
+    };
+    let consumers: Vec<Cons> = if depth == Depth::Full {
+        vec![Cons::Expose, Cons::MulZ, Cons::IsEqualZ, Cons::AssertEqualZ, Cons::AssertNotEqualZ, Cons::IsZero, Cons::DivZByAcc, Cons::Inv0, Cons::ToLeBitsCanon, Cons::ToLeBytes, Cons::SelectZ]
+    } else {
+        vec![Cons::Expose, Cons::MulZ, Cons::IsEqualZ]
+    };
+    for (ci, ch) in chains.iter().enumerate() {
+        for (ki, cons) in consumers.iter().enumerate() {
+            // quick: every chain meets every consumer class, but not the full product
+            if !tier.is_thorough() && depth == Depth::Full && ci >= 3 && (ci + ki) % 3 != 0 {
+                continue;
+            }
+            v.push(Chain(ch.clone(), cons.clone()));
+        }
+    }
+    v
+}
+
+/// Input tuples for a field operation.
+fn field_inputs(spec: &FieldSpec, op: &FOp, tier: Tier, seed: u64, depth: Depth) -> Vec<Vec<V>> {
+    use fops::Ty;
+    let alph = field_alphabet(spec, seed, if tier.is_thorough() { 2 } else { 1 });
+    let m = &spec.m;
+    let tys = op.in_types();
+    if tys.is_empty() {
+        return vec![vec![]];
+    }
+    // vector-typed single input
+    if let [Ty::Bits(n)] = tys[..] {
+        let mut vals = vec![bu(0), bu(1), pow2(n as u32) - 1u32];
+        if n as u64 >= m.bits() {
+            vals.extend([m - 1u32, m.clone(), m + 1u32]);
+        }
+        let mut rng = vcore::rng_for(seed, &format!("c05-bits-{n}"));
+        vals.push(vcore::big::random_below(&mut rng, &pow2(n as u32)));
+        vals.retain(|v| v.bits() <= n as u64);
+        vals.sort();
+        vals.dedup();
+        return vals.into_iter().map(|v| vec![V::Bits((0..n).map(|i| v.bit(i as u64)).collect())]).collect();
+    }
+    if let [Ty::Bytes(n)] = tys[..] {
+        let mut vals = vec![bu(0), bu(1), pow2(8 * n as u32) - 1u32];
+        if 8 * n as u64 >= m.bits() {
+            vals.extend([m - 1u32, m.clone(), m + 1u32]);
+        }
+        let mut rng = vcore::rng_for(seed, &format!("c05-bytes-{n}"));
+        vals.push(vcore::big::random_below(&mut rng, &pow2(8 * n as u32)));
+        vals.retain(|v| v.bits() <= 8 * n as u64);
+        vals.sort();
+        vals.dedup();
+        return vals
+            .into_iter()
+            .map(|v| {
+                let mut b = v.to_bytes_le();
+                b.resize(n, 0);
+                vec![V::Bytes(b)]
+            })
+            .collect();
+    }
+    let alph_e: Vec<V> = alph.iter().map(|(_, v)| V::U(v.clone())).collect();
+    let alph_b = vec![V::B(false), V::B(true)];
+    let alph_y: Vec<V> = [0u8, 1, 128, 255].into_iter().map(V::Y).collect();
+    let per_pos: Vec<Vec<V>> = tys
+        .iter()
+        .map(|t| match t {
+            Ty::E => alph_e.clone(),
+            Ty::B => alph_b.clone(),
+            Ty::Y => alph_y.clone(),
+            _ => unreachable!(),
+        })
+        .collect();
+    let mut out: Vec<Vec<V>> = vec![];
+    if let FOp::Chain(steps, cons) = op {
+        // (x, y) on diagonals; z = the accumulator's value (equal case) and an unrelated value
+        let shifts: &[usize] = if tier.is_thorough() && depth == Depth::Full { &[0, 1, 5] } else { &[1] };
+        let stride = if tier.is_thorough() { 1 } else { 3 };
+        for &shift in shifts {
+            for d in (0..alph_e.len()).step_by(stride) {
+                let x = alph_e[d].u().clone();
+                let y = alph_e[(d + shift) % alph_e.len()].u().clone();
+                let acc = fops::chain_acc(m, steps, &x, &y);
+                let other = alph_e[(d + 2) % alph_e.len()].u().clone();
+                for (zi, z) in [acc.clone(), other].into_iter().enumerate() {
+                    let mut t = vec![V::U(x.clone()), V::U(y.clone()), V::U(z)];
+                    if *cons == Cons::SelectZ {
+                        t.push(V::B((d + zi) % 2 == 0));
+                    }
+                    if !out.contains(&t) {
+                        out.push(t);
+                    }
+                }
+            }
+        }
+        return out;
+    }
+    let n_e = tys.iter().filter(|t| **t == Ty::E).count();
+    let full = tier.is_thorough() && depth == Depth::Full && n_e <= 2;
+    if full {
+        let mut idx = vec![0usize; per_pos.len()];
+        loop {
+            out.push(idx.iter().enumerate().map(|(i, j)| per_pos[i][*j].clone()).collect());
+            let mut i = 0;
+            loop {
+                if i == idx.len() {
+                    return out;
+                }
+                idx[i] += 1;
+                if idx[i] < per_pos[i].len() {
+                    break;
+                }
+                idx[i] = 0;
+                i += 1;
+            }
+        }
+    }
+    let mlen = per_pos.iter().map(|a| a.len()).max().unwrap_or(1);
+    let shifts: &[usize] = if n_e <= 1 { &[0] } else if tier.is_thorough() { &[0, 1, 3] } else { &[0, 1] };
+    for &shift in shifts {
+        for d in 0..mlen {
+            let t: Vec<V> = per_pos.iter().enumerate().map(|(i, a)| a[(d + i * shift) % a.len()].clone()).collect();
+            if !out.contains(&t) {
+                out.push(t);
+            }
+        }
+    }
+    out
+}
+
+fn big_ops(tier: Tier) -> Vec<BOp> {
+    use BOp::*;
+    let widths: Vec<u32> = vec![1, 8, 95, 96, 97, 192, 193];
+    let mut v = vec![];
+    for &w in &widths {
+        v.push(Assign(w));
+        v.push(ToLeBits(w));
+        v.push(ToLeBytes(w));
+    }
+    let pairs: Vec<(u32, u32)> = vec![(1, 1), (8, 8), (96, 96), (97, 95), (95, 193), (193, 192), (192, 8), (193, 193)];
+    for &(a, b) in &pairs {
+        v.extend([Add(a, b), Sub(a, b), Mul(a, b), DivRem(a, b), LowerThan(a, b), IsEqual(a, b), AssertEqual(a, b), AssertNotEqual(a, b)]);
+    }
+    v.extend([IsNotEqual(97, 193), Select(8, 193), Select(96, 96), AddMul(96, 96, 97), AddMul(1, 1, 1)]);
+    for c in [bu(0), bu(1), pow2(96) - 1u32, pow2(96), pow2(192) + 1u32] {
+        v.push(AssignFixed(c.clone()));
+        v.push(IsEqualToFixed(193, c.clone()));
+        v.push(AssertEqualToFixed(193, c.clone()));
+        v.push(AssertNotEqualToFixed(193, c.clone()));
+    }
+    v.extend([IsEqualToFixed(8, pow2(96)), IsNotEqualToFixed(97, bu(1)), AssertEqualToFixed(8, pow2(96))]);
+    for n in [1usize, 8, 95, 96, 97, 193] {
+        v.push(FromLeBits(n));
+    }
+    for n in [1usize, 11, 12, 13, 25] {
+        v.push(FromLeBytes(n));
+    }
+    for n in [0u64, 1, 2, 3, 65537] {
+        for (wx, wm) in [(8u32, 8u32), (97, 96), (193, 193)] {
+            if n == 65537 && wx > 97 && !tier.is_thorough() {
+                continue;
+            }
+            v.push(ModExp(wx, n, wm));
+        }
+    }
+    if tier.is_thorough() {
+        for &w in &[1024u32, 2048] {
+            v.extend([Assign(w), ToLeBits(w), ToLeBytes(w), Add(w, w), Sub(w, w), Mul(w, w), DivRem(w, w), LowerThan(w, w), IsEqual(w, 193), AssertEqual(w, w)]);
+            v.push(FromLeBits(w as usize));
+            v.push(FromLeBytes(w as usize / 8));
+            for n in [0u64, 1, 2, 3, 65537] {
+                v.push(ModExp(w, n, w));
+            }
+        }
+        v.push(DivRem(2048, 1024));
+        v.push(Mul(2048, 8));
+    }
+    v
+}
+
+fn big_inputs(op: &BOp, tier: Tier, seed: u64) -> Vec<Vec<V>> {
+    use bops::BTy;
+    let tys = op.in_types();
+    if tys.is_empty() {
+        return vec![vec![]];
+    }
+    let per_pos: Vec<Vec<V>> = tys
+        .iter()
+        .map(|t| match t {
+            BTy::U(w) => {
+                let mut vals: Vec<V> = big_values(*w, seed).into_iter().map(V::U).collect();
+                // one out-of-range value (must be rejected by the range check of assign_biguint)
+                if matches!(op, BOp::Assign(_)) {
+                    vals.push(V::U(pow2(*w)));
+                    vals.push(V::U(pow2(96 * w.div_ceil(96)) - 1u32));
+                }
+                vals
+            }
+            BTy::B => vec![V::B(false), V::B(true)],
+            BTy::Bits(n) => {
+                let mut vals = vec![bu(0), bu(1), pow2(*n as u32) - 1u32, pow2(*n as u32 - 1)];
+                let mut rng = vcore::rng_for(seed, &format!("c05-bbits-{n}"));
+                vals.push(vcore::big::random_below(&mut rng, &pow2(*n as u32)));
+                vals.retain(|v| v.bits() <= *n as u64);
+                vals.sort();
+                vals.dedup();
+                vals.into_iter().map(|v| V::Bits((0..*n).map(|i| v.bit(i as u64)).collect())).collect()
+            }
+            BTy::Bytes(n) => {
+                let mut vals = vec![bu(0), bu(1), pow2(8 * *n as u32) - 1u32, pow2(8 * *n as u32 - 1)];
+                let mut rng = vcore::rng_for(seed, &format!("c05-bbytes-{n}"));
+                vals.push(vcore::big::random_below(&mut rng, &pow2(8 * *n as u32)));
+                vals.sort();
+                vals.dedup();
+                vals.into_iter()
+                    .map(|v| {
+                        let mut b = v.to_bytes_le();
+                        b.resize(*n, 0);
+                        V::Bytes(b)
+                    })
+                    .collect()
+            }
+        })
+        .collect();
+    let mut out: Vec<Vec<V>> = vec![];
+    let n_u = tys.iter().filter(|t| matches!(t, BTy::U(_))).count();
+    let huge = tys.iter().any(|t| matches!(t, BTy::U(w) if *w > 193));
+    let full = tier.is_thorough() && n_u <= 2 && !huge && !matches!(op, BOp::ModExp(_, 65537, _));
+    if full {
+        let mut idx = vec![0usize; per_pos.len()];
+        loop {
+            out.push(idx.iter().enumerate().map(|(i, j)| per_pos[i][*j].clone()).collect());
+            let mut i = 0;
+            loop {
+                if i == idx.len() {
+                    return out;
+                }
+                idx[i] += 1;
+                if idx[i] < per_pos[i].len() {
+                    break;
+                }
+                idx[i] = 0;
+                i += 1;
+            }
+        }
+    }
+    let mlen = per_pos.iter().map(|a| a.len()).max().unwrap_or(1);
+    let shifts: &[usize] = if n_u <= 1 { &[0] } else if huge || matches!(op, BOp::ModExp(_, 65537, _)) { &[1] } else { &[0, 1, 2] };
+    for &shift in shifts {
+        for d in 0..mlen {
+            let t: Vec<V> = per_pos.iter().enumerate().map(|(i, a)| a[(d + i * shift) % a.len()].clone()).collect();
+            if !out.contains(&t) {
+                out.push(t);
+            }
+        }
+    }
+    // the modulus-one and small-modulus corner cases of mod_exp, and x >= m
+    if let BOp::ModExp(wx, _, wm) = op {
+        for (x, m) in [(bu(5), bu(3)), (bu(0), bu(1)), (bu(7), bu(1)), (bu(1), bu(2)), (bu(6), bu(3))] {
+            if x.bits() <= *wx as u64 && m.bits() <= *wm as u64 {
+                let t = vec![V::U(x), V::U(m)];
+                if !out.contains(&t) {
+                    out.push(t);
+                }
+            }
+        }
+    }
+    out
+}
+
+// ---------------------------------------------------------------------------------------------
+// decoder self-checks
+// ---------------------------------------------------------------------------------------------
+
+fn selfcheck_field<K: CircuitField>(cx: &mut Ctx, fld: Fld)
+where
+    MEP: midnight_circuits::field::foreign::params::FieldEmulationParams<F, K>,
+{
+    let spec = fld.spec();
+    let mut n = 0;
+    let mut ok = true;
+    for (_, v) in field_alphabet(&spec, cx.seed, 8) {
+        let k = K::from_biguint(&v).unwrap();
+        let lib: Vec<F> = <AssignedField<F, K, MEP> as Instantiable<F>>::as_public_input(&k);
+        ok &= lib == encode_field(&spec, &v);
+        ok &= decode_field_canonical(&spec, &lib) == Some(v.clone());
+        n += 1;
+        // the +m representation (when it is well-formed) decodes to the same residue, flagged
+        let l = (&v + &spec.m - 1u32) % &spec.m;
+        let lm = &l + &spec.m;
+        if lm.bits() <= spec.wf_total_bits() as u64 {
+            let raw: Vec<F> = limbs_of(&spec, &lm).iter().map(vgad::val::from_big).collect();
+            ok &= decode_field_limbs(&spec, &raw) == Some(FieldDec { residue: v.clone(), canonical: false });
+            ok &= decode_field_canonical(&spec, &raw).is_none();
+        }
+    }
+    // a limb outside its range is rejected
+    let mut raw = encode_field(&spec, &bu(5));
+    raw[0] = vgad::val::from_big(&spec.base());
+    ok &= decode_field_limbs(&spec, &raw).is_none();
+    cx.require(ok && n >= 12, &format!("field decoder agrees with Instantiable::as_public_input on the alphabet of {}", spec.name));
+}
+
+fn selfcheck_big(cx: &mut Ctx) {
+    let mut ok = true;
+    let mut n = 0;
+    for w in [1u32, 8, 95, 96, 97, 192, 193, 1024, 2048] {
+        for v in big_values(w, cx.seed) {
+            let lib: Vec<F> = AssignedBigUint::<F>::as_public_input(&v, w);
+            ok &= Some(lib.clone()) == encode_biguint(&v, w);
+            ok &= decode_biguint_limbs(&lib) == Some(v.clone());
+            n += 1;
+        }
+    }
+    ok &= decode_biguint_limbs(&[vgad::val::from_big(&pow2(96))]).is_none();
+    cx.require(ok && n > 50, "biguint decoder agrees with AssignedBigUint::as_public_input");
+}
+
+// ---------------------------------------------------------------------------------------------
+// multi-limb "+m" faults
+// ---------------------------------------------------------------------------------------------
+
+/// Adds the emulated modulus, limb by limb and without carries, to `nb_limbs` advice assignments
+/// `start, start+gap, ..`: turns a limb vector into the second representation of the same residue
+/// whenever no limb overflows.
+fn plus_m_plan(spec: &FieldSpec, idxs: &[u64]) -> Vec<(u64, Fault, Mode)> {
+    let ml = limbs_of(spec, &spec.m);
+    idxs.iter()
+        .zip(ml)
+        .map(|(i, mi)| {
+            let d = mi.to_u64_digits();
+            let mut a = [0u64; 4];
+            for (j, x) in d.iter().enumerate() {
+                a[j] = *x;
+            }
+            (*i, Fault::AddBits(a), Mode::Propagate)
+        })
+        .collect()
+}
+
+fn main() {
+    let mut cx = Ctx::from_args("C05", Level::FaultEnumeration);
+    cx.worker_rayon_threads = Some(1);
+    let seed = cx.seed;
+    let tier = cx.tier;
+    let only = std::env::var("C05_ONLY").ok();
+    cx.assume("MockProver (with the trash-argument evaluation added by the C02 fix) is the satisfiability oracle; its agreement with the real verifier is C02's subject");
+    cx.assume("prover freedom is bounded to <= 1 deviation from the honest witness generator (propagate mode), 2 deviations for the smallest operations, consistent lies about exposed values, and the multi-limb '+m' re-representation of a limb vector");
+    cx.assume("a well-formed non-canonical limb vector is an admissible representation of its residue (field_chip.rs documents this); exposures of such vectors are counted, not reported, and the outputs must still be correct for the residue");
+
+    // ---- decoder self-checks
+    selfcheck_field::<midnight_curves::k256::Fp>(&mut cx, Fld::SecpBase);
+    selfcheck_field::<midnight_curves::k256::Fq>(&mut cx, Fld::SecpScalar);
+    selfcheck_field::<midnight_curves::Fp>(&mut cx, Fld::BlsBase);
+    selfcheck_big(&mut cx);
+
+    // ---- cases
+    let configs: Vec<(u8, u8)> = if tier.is_thorough() { vec![(4, 8), (1, 8), (2, 11), (3, 16)] } else { vec![(4, 8)] };
+    let mut cases: Vec<(String, Case)> = vec![];
+    let flds: Vec<(Fld, Depth)> = if tier.is_thorough() {
+        vec![(Fld::SecpBase, Depth::Full), (Fld::SecpScalar, Depth::Full), (Fld::BlsBase, Depth::Full)]
+    } else {
+        vec![(Fld::SecpBase, Depth::Full), (Fld::SecpScalar, Depth::Reduced), (Fld::BlsBase, Depth::Reduced)]
+    };
+    let mut specs_json = vec![];
+    for (fld, depth) in &flds {
+        let spec = fld.spec();
+        specs_json.push(json!({"field": spec.name, "log2_base": spec.log2_base, "nb_limbs": spec.nb_limbs, "well_formed_bits": spec.wf_bits, "aux_moduli": spec.nb_moduli,
+            "depth": if *depth == Depth::Full { "full" } else { "reduced" }}));
+        for (oi, op) in field_ops(&spec, *depth, tier, seed).iter().enumerate() {
+            for (ii, ins) in field_inputs(&spec, op, tier, seed, *depth).into_iter().enumerate() {
+                let (cols, mbl) = configs[(oi + ii) % configs.len()];
+                let c = Case {
+                    kind: Kind::F(*fld, op.clone()),
+                    ins,
+                    cols,
+                    mbl,
+                };
+                cases.push((c.key(), c));
+            }
+        }
+    }
+    for (oi, op) in big_ops(tier).iter().enumerate() {
+        for (ii, ins) in big_inputs(op, tier, seed).into_iter().enumerate() {
+            let (cols, mbl) = configs[(oi + ii) % configs.len()];
+            let c = Case {
+                kind: Kind::B(op.clone()),
+                ins,
+                cols,
+                mbl,
+            };
+            cases.push((c.key(), c));
+        }
+    }
+    {
+        let mut seen = std::collections::HashSet::new();
+        cases.retain(|(k, _)| seen.insert(k.clone()));
+    }
+    if let Some(f) = &only {
+        cases.retain(|(k, _)| k.contains(f.as_str()));
+    }
+    cx.extra("fields", json!(specs_json));
+
+    // ---- k per (operation, configuration)
+    let mut kreq: Vec<(String, Case)> = vec![];
+    {
+        let mut seen = std::collections::HashSet::new();
+        for (_, c) in &cases {
+            if seen.insert(c.kkey()) {
+                kreq.push((c.kkey(), c.clone()));
+            }
+        }
+    }
+    let ks: Mutex<HashMap<String, u32>> = Mutex::new(HashMap::new());
+    cx.run_cases("min-k", &kreq, |c| {
+        let mut o = CaseOut::batch();
+        match vgad::min_k(c) {
+            Ok(k) => {
+                ks.lock().unwrap().insert(c.kkey(), k);
+                o.count(&format!("k={k}"), 1);
+            }
+            Err(p) => {
+                o.count("k-panic", 1);
+                o.viol(Viol::new(format!("{}:sizing-panic:{}", c.op(), vcore::panic_site(&p)), format!("building the circuit without witnesses panicked: {p}"), json!({"op": c.opkey()})));
+            }
+        }
+        o
+    });
+    let ks = ks.into_inner().unwrap();
+    let kof = |c: &Case| ks.get(&c.kkey()).copied();
+    let cases: Vec<(String, Case)> = cases.into_iter().filter(|(_, c)| kof(c).is_some()).collect();
+
+    // ---- phase 1: honest runs, instance binding, exposed-value lies
+    struct Hon {
+        n: u64,
+        op_range: (u64, u64),
+    }
+    let hon: Mutex<HashMap<String, Hon>> = Mutex::new(HashMap::new());
+    let t_hon = std::time::Instant::now();
+    cx.run_cases("honest", &cases, |c| {
+        let mut out = CaseOut::batch();
+        let k = kof(c).unwrap();
+        fops::NONCANON_SEEN.with(|x| x.set(0));
+        let rep = vgad::explore_honest(c, k, &mut out);
+        let (s, e) = marks();
+        if rep.outcome == Outcome::Sat && c.expect_sat() {
+            hon.lock().unwrap().insert(c.key(), Hon { n: rep.n_assign, op_range: (s, e) });
+        }
+        out.counter("advice_assignments", rep.n_assign);
+        out.counter("noncanonical_exposures_accepted", fops::NONCANON_SEEN.with(|x| x.get()));
+        out.sample = Some(json!({"case": c.key(), "k": k, "honest": rep.outcome.name(), "assignments": rep.n_assign, "op_assignment_range": [s, e], "exposed": rep.exposed}));
+        out
+    });
+    let hon = hon.into_inner().unwrap();
+    let hon_s = t_hon.elapsed().as_secs_f64();
+
+    // ---- phase 2: 1-deviation faults in propagate mode
+    let limb_faults = |l: u32| -> Vec<(&'static str, Fault)> { vec![("+base", Fault::AddPow2(l)), ("-base", Fault::SubPow2(l))] };
+    let base_faults: Vec<(&'static str, Fault)> = {
+        let f = vgad::default_faults(seed);
+        if tier.is_thorough() {
+            f
+        } else {
+            f.into_iter().filter(|(n, _)| ["+1", "-1", "zero", "random"].contains(n)).collect()
+        }
+    };
+    // one operand tuple per operation (the first satisfiable one whose operands are not all
+    // trivial); the stride over assignment indices is chosen from the size of the operation
+    let budget_runs: u64 = tier.pick(22_000, 900_000);
+    let mut chosen: Vec<(&String, &Case, &Hon)> = vec![];
+    {
+        let mut per_op: HashMap<String, usize> = HashMap::new();
+        let want = tier.pick(1usize, 2usize);
+        // prefer tuples further down the diagonal (index >= 3: not 0/1/2) when available
+        let mut by_op: HashMap<String, Vec<(&String, &Case, &Hon)>> = HashMap::new();
+        let mut order: Vec<String> = vec![];
+        for (key, c) in &cases {
+            if let Some(h) = hon.get(key) {
+                let e = by_op.entry(c.opkey()).or_default();
+                if e.is_empty() {
+                    order.push(c.opkey());
+                }
+                e.push((key, c, h));
+            }
+        }
+        for ok in &order {
+            let v = &by_op[ok];
+            let picks: Vec<usize> = if v.len() > 4 { vec![4, 1] } else { vec![0, v.len() - 1] };
+            for p in picks {
+                let cnt = per_op.entry(ok.clone()).or_default();
+                if *cnt < want && p < v.len() && !chosen.iter().any(|(k, _, _)| *k == v[p].0) {
+                    chosen.push(v[p]);
+                    *cnt += 1;
+                }
+            }
+        }
+    }
+    let n_faults_per_idx = (base_faults.len() + 2) as u64;
+    let total_idx: u64 = chosen.iter().map(|(_, _, h)| h.n).sum();
+    // global stride so that the fault phase fits its share of the budget; operations with at most
+    // `small` assignments always get every index
+    let small: u64 = tier.pick(48, 400);
+    let stride: u64 = (total_idx * n_faults_per_idx).div_ceil(budget_runs).max(1);
+    let mut fcases: Vec<(String, (Case, Vec<u64>, Vec<(&'static str, Fault)>))> = vec![];
+    let mut swept: u64 = 0;
+    for (key, c, h) in &chosen {
+        let s = if h.n <= small { 1 } else { stride };
+        // the operation's own assignments at stride s; input assignment / exposure at a coarser one
+        let (a, b) = h.op_range;
+        let mut idxs: Vec<u64> = vec![];
+        for i in 0..h.n {
+            let inside = i >= a && i < b;
+            let st = if inside || h.n <= small { s } else { s * 3 };
+            if i % st == (c.key().len() as u64 % st) {
+                idxs.push(i);
+            }
+        }
+        swept += idxs.len() as u64;
+        let mut faults = base_faults.clone();
+        match &c.kind {
+            Kind::F(f, _) => faults.extend(limb_faults(f.spec().log2_base)),
+            Kind::B(_) => faults.extend(limb_faults(BIG_LOG2_BASE)),
+        }
+        for (ci, chunk) in idxs.chunks(8).enumerate() {
+            fcases.push((format!("{key}#{ci}"), ((*c).clone(), chunk.to_vec(), faults.clone())));
+        }
+    }
+    cx.note(format!(
+        "fault phase: {} operations x {} operand tuple(s); {} assignment indices in total, stride {} inside the operation (x3 outside: input assignment and exposure), every index for operations with <= {} assignments; {} indices swept x {} faults",
+        chosen.iter().map(|(_, c, _)| c.opkey()).collect::<std::collections::HashSet<_>>().len(),
+        tier.pick(1, 2),
+        total_idx,
+        stride,
+        small,
+        swept,
+        n_faults_per_idx
+    ));
+    cx.run_cases("faults", &fcases, |(c, idxs, faults)| {
+        let mut out = CaseOut::batch();
+        fops::NONCANON_SEEN.with(|x| x.set(0));
+        vgad::explore_faults(c, kof(c).unwrap(), idxs, faults, &mut out);
+        out.counter("noncanonical_exposures_accepted", fops::NONCANON_SEEN.with(|x| x.get()));
+        out
+    });
+
+    // ---- phase 3: "+m" re-representation of limb vectors (field operations only)
+    // Candidate limb groups are runs of nb_limbs assignment indices in arithmetic progression
+    // (gap 1: outputs of the normalisation gate; larger gaps: limbs assigned one by one with their
+    // range checks in between).
+    let mut mcases: Vec<(String, (Case, Vec<Vec<u64>>))> = vec![];
+    {
+        let mut seen_ops: HashMap<String, usize> = HashMap::new();
+        for (key, c) in &cases {
+            let Kind::F(f, op) = &c.kind else { continue };
+            let Some(h) = hon.get(key) else { continue };
+            // small operand values only: adding m limb-wise must not overflow a limb
+            let smallish = c.ins.iter().any(|v| matches!(v, V::U(x) if *x <= bu(2) && !x.is_zero()));
+            if !smallish {
+                continue;
+            }
+            let cnt = seen_ops.entry(format!("{f:?}{}", op.name())).or_default();
+            if *cnt >= tier.pick(1, 2) {
+                continue;
+            }
+            *cnt += 1;
+            let n = f.spec().nb_limbs as u64;
+            let mut groups: Vec<Vec<u64>> = vec![];
+            let max_gap = tier.pick(12u64, 40u64);
+            let lim = h.n.min(tier.pick(160, 1200));
+            for gap in 1..=max_gap {
+                for start in 0..lim {
+                    if start + gap * (n - 1) < h.n {
+                        groups.push((0..n).map(|j| start + gap * j).collect());
+                    }
+                }
+            }
+            for (ci, chunk) in groups.chunks(24).enumerate() {
+                mcases.push((format!("{key}#{ci}"), (c.clone(), chunk.to_vec())));
+            }
+        }
+    }
+    cx.run_cases("plus-m", &mcases, |(c, groups)| {
+        let mut out = CaseOut::batch();
+        let Kind::F(f, _) = &c.kind else { unreachable!() };
+        let spec = f.spec();
+        let k = kof(c).unwrap();
+        fops::NONCANON_SEEN.with(|x| x.set(0));
+        for g in groups {
+            let run = vgad::run_once(c, k, plus_m_plan(&spec, g), false);
+            if run.applied.len() < g.len() {
+                out.count("plus-m:not-reached", 1);
+                continue;
+            }
+            out.eval(&format!("plus-m:{}", run.outcome.name()), true);
+            if run.outcome == Outcome::Sat {
+                match c.judge(&run.ins, &run.outs) {
+                    Judgement::Holds => out.count("plus-m:accepted-benign", 1),
+                    Judgement::Wrong(w) => out.viol(Viol::new(
+                        format!("{}:unsound-under-plus-m", c.op()),
+                        format!("the modulus added limb-wise to advice assignments {g:?}: circuit still satisfied although {w}"),
+                        json!({"case": c.key(), "assignment_indices": g}),
+                    )),
+                }
+            }
+        }
+        out.counter("noncanonical_exposures_accepted", fops::NONCANON_SEEN.with(|x| x.get()));
+        out
+    });
+
+    // ---- phase 4: 2 deviations for small operations: all pairs x {+1, zero}^2
+    let f2: Vec<_> = vgad::default_faults(seed).into_iter().filter(|(n, _)| ["+1", "zero"].contains(n)).collect();
+    let mut pcases: Vec<(String, (Case, Vec<(u64, u64)>))> = vec![];
+    {
+        let mut seen_ops: std::collections::HashSet<String> = Default::default();
+        let max_n = tier.pick(14u64, 40u64);
+        for (key, c) in &cases {
+            let Some(h) = hon.get(key) else { continue };
+            if h.n > max_n || h.n < 2 {
+                continue;
+            }
+            if !seen_ops.insert(c.opkey()) {
+                continue;
+            }
+            let mut pairs = vec![];
+            for i in 0..h.n {
+                for j in i + 1..h.n {
+                    pairs.push((i, j));
+                }
+            }
+            for (ci, chunk) in pairs.chunks(8).enumerate() {
+                pcases.push((format!("{key}#{ci}"), (c.clone(), chunk.to_vec())));
+            }
+        }
+    }
+    cx.run_cases("pairs", &pcases, |(c, pairs)| {
+        let mut out = CaseOut::batch();
+        vgad::explore_pairs(c, kof(c).unwrap(), pairs, &f2, &mut out);
+        out
+    });
+
+    cx.set_rule(&format!(
+        "emulated fields x operation registry (assign/assign_fixed, add/sub/neg/mul/div/inv/inv0/square/pow, add_constant, mul_by_constant around the \
+         limb-wise threshold, linear_combination, zero/equality tests and assertions incl. _to_fixed, select/cond_swap/cond_assert_equal, bit/byte/chunk \
+         (de)composition, sgn0, conversions, is_square/assert_qr, and CHAINS leaving the accumulator un-normalised below and above the lazy-normalisation \
+         threshold before mul/is_equal/assert/is_zero/div/inv0/bits/bytes/select/exposure) x operand alphabet {{0,1,2,m-1,m-2,(m-1)/2, all-ones limbs, \
+         2^(L(n-1)), 2^L-1, 2^L, 2^L+1, 2^wf-m, seeded}} (diagonals in quick, full product for arity<=2 in thorough); BigUint gadget (assign, add, sub, mul, \
+         div_rem, mod_exp n in {{0,1,2,3,65537}}, lower_than, (in)equality tests/assertions incl. different limb counts and constants, select, to/from \
+         bits/bytes) x widths {{1,8,95,96,97,192,193{}}} x values {{0,1,2^w-1,2^(w-1),2^96-1,2^96,2^96+1,2^192-1,2^192,2^192+1,seeded}}; per case: honest run \
+         (satisfiable with the reference result recomputed from the decoded exposed inputs, or unsatisfiable if out of domain), every single-position \
+         edit of the exposed vector, every exposed value changed with its copy cycle; per operation: advice-assignment indices (stride {} inside the \
+         operation) x faults {{{}, +-2^LOG2_BASE}} in propagate mode; limb-wise +m on every arithmetic-progression group of NB_LIMBS assignments; all \
+         pairs x {{+1,zero}}^2 for operations with few assignments. A case is one (field|biguint, operation, parameters, inputs, configuration); \
+         evaluations count MockProver verdicts.",
+        if tier.is_thorough() { ",1024,2048" } else { "" },
+        stride,
+        base_faults.iter().map(|f| f.0).collect::<Vec<_>>().join(","),
+    ));
+    cx.note(format!("honest phase wall {hon_s:.1}s"));
+    if tier == Tier::Quick {
+        cx.note("quick: secp256k1 base field with the full operation list; secp256k1 scalar field and BLS12-381 base field with a reduced list; BigUint widths <= 193 bits");
+    }
+    cx.note("not covered: Curve25519 field chips (reachable only through FromScratch test circuits, not through ZkStdLib); assign_as_public_input and BigUintGadget::constrain_as_public_input (they write the instance column themselves, outside the exposure log of the engine)");
+    if only.is_none() {
+        let sat = cx.class_count("honest:honest:sat");
+        let unsat = cx.class_count("honest:honest:unsat") + cx.class_count("honest:honest:synth-err") + cx.class_count("honest:honest:crash-unsat");
+        cx.require(sat > 100 && unsat > 10, "need both satisfiable and out-of-domain cases");
+        cx.require(cx.class_count("faults:fault:unsat") > 100, "faults must be rejected somewhere");
+        cx.require(cx.class_count("plus-m:plus-m:sat") > 0, "the +m re-representation must be accepted somewhere (otherwise the groups are not limb vectors)");
+    }
+    cx.finish()
+}
